@@ -83,6 +83,59 @@ Theorem C12_handler_table_v0_refuted :
   exists hs s t, get_handler (build_handlers_v0 hs) s t <> spec_table hs s t.
 Proof. exact handler_table_v0_refuted. Qed.
 
+(** Layer classes deriving from other layer classes.  [chain] = the method dictionaries along
+    the MRO (the class itself first); [effective chain] = what [Layer.__init__] iterates over
+    ([dir(self)] sorted, [getattr(self, name)] = nearest definition).  For ALL chains: the
+    table of the derived class is the dictionary of the pairs declared by the VISIBLE
+    definitions; it is a function of the class alone (not of which classes were instantiated
+    before). *)
+Theorem C12_handler_table_exact_derived :
+  forall (chain : list (list hdecl)) (s t : N),
+    get_handler (build_handlers (effective chain)) s t = spec_table (effective chain) s t.
+Proof. exact handler_table_exact_derived. Qed.
+
+Theorem C12_registered_methods_are_the_visible_definitions :
+  forall (chain : list (list hdecl)) (h : hdecl),
+    In h (effective chain) <-> visible chain (h_id h) = Some h.
+Proof. exact effective_in. Qed.
+
+Theorem C12_override_hides_base_definition :
+  forall own rest ho hb, find_hd own (h_id hb) = Some ho -> In hb (effective (own :: rest)) -> hb = ho.
+Proof. exact override_hides. Qed.
+
+Theorem C12_derived_handler_sound :
+  forall chain s t m x,
+    get_handler (build_handlers (effective chain)) s t = Some (m, x) ->
+    exists h, visible chain m = Some h /\ x = h_contextual h /\
+      (declares h s t = true \/
+       (declares h s 0 = true /\ forall h', In h' (effective chain) -> declares h' s t = false)).
+Proof. exact derived_handler_sound. Qed.
+
+Theorem C12_derived_handler_complete :
+  forall chain s t h, visible chain (h_id h) = Some h -> declares h s t = true ->
+    exists h', visible chain (h_id h') = Some h' /\ declares h' s t = true /\
+      get_handler (build_handlers (effective chain)) s t = Some (h_id h', h_contextual h').
+Proof. exact derived_handler_complete. Qed.
+
+(** ... and the refinement holds for stacks built from such classes (class pool [p], tree [t]),
+    whatever the order in which base and derived classes get instantiated. *)
+Theorem C12_refinement_derived :
+  forall p (t : ctree) (ops : list op),
+    trace (impl_run (elab p t) ops) = trace (spec_run (elab p t) ops).
+Proof. exact refinement_derived. Qed.
+
+(** Non-vacuity for inheritance: base class (methods 0: default of source 1, 1: tag 1 of source 1),
+    derived class adds method 2 (tag 2 of source 1) and method 3 (new source 5) and overrides
+    method 1 without decorators: tag 2 -> 2, source 5 -> 3, tag 1 -> falls back to 0. *)
+Example C12_nonvacuous_derived :
+  let base := [Hd 0 [Dc 1 0 false]; Hd 1 [Dc 1 1 false]] in
+  let own := [Hd 1 []; Hd 2 [Dc 1 2 false]; Hd 3 [Dc 5 0 true]] in
+  let tb := build_handlers (effective [own; base]) in
+  map h_id (effective [own; base]) = [0; 1; 2; 3] /\
+  get_handler tb 1 2 = Some (2, false) /\ get_handler tb 5 0 = Some (3, true) /\
+  get_handler tb 1 1 = Some (0, false) /\ get_handler (build_handlers (effective [base])) 1 2 = Some (0, false).
+Proof. cbv zeta. repeat split; vm_compute; reflexivity. Qed.
+
 (** State save/load: for every class tree whose LAYERS are dictionaries and whose static
     sub-layers do not carry their parent's alias, and every operation sequence that destroys
     only contextual instances, saving the reached stack and loading the result into a fresh
